@@ -110,6 +110,11 @@ void CodePrinter::bvisit(const Complex &x)
 {
     throw NotImplementedError("Not implemented");
 }
+void CodePrinter::bvisit(const ComplexDouble &x)
+{
+    // like Complex: "0.5 + 0.0*I" is not an expression of the target language
+    throw NotImplementedError("Not implemented");
+}
 void CodePrinter::bvisit(const Dummy &x)
 {
     std::ostringstream s;
